@@ -492,6 +492,11 @@ Definition set_last_running (s : server) : server :=
         (sv_ents s) (sv_despawn_buf s) (sv_removal_buf s) (sv_removed_events s) (sv_clients s)
         (sv_inbox_acks s) (sv_premap s).
 
+Definition clear_dirty (s : server) : server :=
+  mkSrv (sv_running s) (sv_last_running s) (sv_now s) (sv_last_run s) (sv_tick s) false (sv_elapsed s)
+        (sv_ents s) (sv_despawn_buf s) (sv_removal_buf s) (sv_removed_events s) (sv_clients s)
+        (sv_inbox_acks s) (sv_premap s).
+
 Definition server_frame (c : cfg) (s : server) (tick : bool) (dt : N) (cleanup : bool) (ops : list sop)
   (parts : list (N * partition)) : res (server * frame_out) :=
   let s1 := with_time_tick s tick dt in
@@ -507,6 +512,10 @@ Definition server_frame (c : cfg) (s : server) (tick : bool) (dt : N) (cleanup :
         let* (s4, outs) := send_replication c s3' parts in Ok (s4, outs, true)
       else Ok (s3', [], false)
     else
+      (* the run condition `resource_changed::<ServerTick>` of send_replication is a system condition:
+         Bevy evaluates it every frame, also while the set condition `server_running` is false, so a
+         pending change (an increment while stopped, or the one made by `reset` earlier in this frame)
+         is consumed here *)
       let s3' := if sv_last_running s3 then reset s3 else s3 in
-      Ok (age_events s3', [], false) in
+      Ok (clear_dirty (age_events s3'), [], false) in
   Ok (set_last_running s4, mkFO (sv_tick s4) ran outs).
